@@ -11,7 +11,7 @@ from pyvc import verify, solve  # noqa
 def main():
     mod = sys.argv[1]
     only = sys.argv[2] if len(sys.argv) > 2 else None
-    importlib.import_module("contracts." + mod)
+    importlib.import_module(mod if "." in mod else "contracts." + mod)
     tot = 0
     bad = 0
     for key, c in REG.contracts.items():
